@@ -29,6 +29,7 @@ def thresholds(tier):
        "adjacency_comparisons": 1000, "sibling_chain_designs": 80, "interface_connections_in_both_orientations": 80}
   if tier == "thorough":
     t = {k: v * 12 for k, v in t.items()}
+    t["sibling_chain_designs"] = 600; t["interface_connections_in_both_orientations"] = 600      # 60 per shard
   return t
 
 
